@@ -4,10 +4,11 @@ seeded from /repo/testkeys (corpus/C09/<target>/, built by make_corpus.py); mini
 finding live in corpus/C09/<target>/regress/ and are replayed on every run."""
 
 
-def T(name, src, quick_secs, max_len=8192, timeout=25, **kw):
+def T(name, src, quick_secs, max_len=8192, timeout=10, **kw):
     d = dict(name=name, src=['props/C09/' + src], engine='libfuzzer', corpus=['corpus/C09/' + name], max_len=max_len,
              timeout=timeout, hang_is_violation=True, fuzz_args=['-close_fd_mask=1', '-len_control=50'],
              quick=dict(secs=quick_secs, shards=16), thorough=dict(secs=180, shards=16))
+    # note: the per-case alarm armed by vf.h (VF_TARGET timeout) must be >= libFuzzer's -timeout, see the targets
     d.update(kw)
     return d
 
@@ -25,12 +26,12 @@ PROP = dict(
         T('c09_x509_pem_bundle', 'x509_pem_bundle.cc', 8),
         T('c09_crl', 'crl.cc', 10),
         T('c09_ocsp_response', 'ocsp_response.cc', 10),
-        T('c09_pkcs8', 'pkcs8.cc', 7, timeout=40),
-        T('c09_pkcs12', 'pkcs12.cc', 10, timeout=40),
-        T('c09_privkey_any', 'privkey_any.cc', 8, timeout=40),
+        T('c09_pkcs8', 'pkcs8.cc', 7, timeout=25),
+        T('c09_pkcs12', 'pkcs12.cc', 10, timeout=25),
+        T('c09_privkey_any', 'privkey_any.cc', 8, timeout=25),
         T('c09_pubkey_any', 'pubkey_any.cc', 7),
         T('c09_dh_params', 'dh_params.cc', 5),
         T('c09_pem_decode', 'pem_decode.cc', 6),
-        T('c09_load_keys_mem', 'load_keys_mem.cc', 10, timeout=40),
+        T('c09_load_keys_mem', 'load_keys_mem.cc', 10, timeout=25),
     ],
 )
